@@ -272,9 +272,14 @@ func (e *Engine) prepareRepoPackage(rel string, overlay map[string][]byte) error
 	for _, c := range cf.Contracts {
 		c.Pkg = pkgPath
 		var fd *ast.FuncDecl
+		declName, closureIdx := c.FuncName, 0
+		if i := strings.Index(c.FuncName, "$"); i >= 0 {
+			declName = c.FuncName[:i]
+			fmt.Sscanf(c.FuncName[i+1:], "%d", &closureIdx)
+		}
 		for _, name := range sortedKeys(files) {
 			for _, d := range files[name].Decls {
-				if f, ok := d.(*ast.FuncDecl); ok && f.Name.Name == c.FuncName && recvTypeText(f) == c.RecvType {
+				if f, ok := d.(*ast.FuncDecl); ok && f.Name.Name == declName && recvTypeText(f) == c.RecvType {
 					fd = f
 					c.SrcFile = name
 				}
@@ -282,6 +287,24 @@ func (e *Engine) prepareRepoPackage(rel string, overlay map[string][]byte) error
 		}
 		if fd == nil {
 			return fmt.Errorf("%s:%d: function %s not found in %s", c.File, c.Line, c.Key, rel)
+		}
+		if closureIdx > 0 {
+			// contract on the closureIdx-th function literal of the declaration (source order, outermost literals):
+			// its own parameters/results, and the captured variables declared with //@ freevars
+			var lits []*ast.FuncLit
+			ast.Inspect(fd.Body, func(n ast.Node) bool {
+				if fl, ok := n.(*ast.FuncLit); ok {
+					lits = append(lits, fl)
+					return false
+				}
+				return true
+			})
+			if closureIdx > len(lits) {
+				return fmt.Errorf("%s:%d: %s has only %d function literals", c.File, c.Line, declName, len(lits))
+			}
+			fl := lits[closureIdx-1]
+			fd = &ast.FuncDecl{Name: fd.Name, Type: fl.Type, Body: fl.Body}
+			c.IsClosure = true
 		}
 		if firstSrc == "" {
 			firstSrc = c.SrcFile
@@ -303,6 +326,15 @@ func (e *Engine) prepareRepoPackage(rel string, overlay map[string][]byte) error
 		}
 		if t := fieldListText(fd.Type.Params, "_p", &names); t != "" {
 			parts = append(parts, t)
+		}
+		c.NOwnParams = len(names)
+		if c.IsClosure && c.FreeVars != "" {
+			parts = append(parts, c.FreeVars)
+			for _, p := range splitTop(c.FreeVars, ',') {
+				fn := strings.Fields(strings.TrimSpace(p))[0]
+				names = append(names, fn)
+				c.FreeVarNames = append(c.FreeVarNames, fn)
+			}
 		}
 		pre := strings.Join(parts, ", ")
 		preNames := append([]string(nil), names...)
@@ -738,6 +770,17 @@ func (e *Engine) findFunction(c *Contract) *ssa.Function {
 	sp := e.ssaPkgs[c.Pkg]
 	if sp == nil {
 		return nil
+	}
+	if i := strings.Index(c.FuncName, "$"); i >= 0 {
+		pc := *c
+		pc.FuncName = c.FuncName[:i]
+		parent := e.findFunction(&pc)
+		idx := 0
+		fmt.Sscanf(c.FuncName[i+1:], "%d", &idx)
+		if parent == nil || idx < 1 || idx > len(parent.AnonFuncs) {
+			return nil
+		}
+		return parent.AnonFuncs[idx-1]
 	}
 	if c.RecvType == "" {
 		return sp.Func(c.FuncName)
